@@ -101,6 +101,18 @@ def execOp (op : String) (a : List Int) : Option (Option String) :=
   | "scd", [y, m, d] => some (modelDay y m d)
   | "sch", [y, m, d, h, mi, s] => some (modelTime y m d h mi s)
   | "sch.daynext", [y, m, d, h, mi, s, n] => some (modelDayNext y m d h mi s n)
+  -- the deprecated getters of LunarDay / LunarHour delegate to the sexagenary views (the lunar date must exist too)
+  | "scd.dep", [y, m, d] => some <| (modelDay y m d).map fun r =>
+      match r.splitOn " " with
+      | yp :: mp :: _ :: dl :: _ => s!"{yp} {mp} {dl}"
+      | _ => r
+  | "sch.dep", [y, m, d, h, mi, s] => some <| (modelTime y m d h mi s).bind fun r =>
+      match Lunar.ofSolar E y m d with
+      | none => none
+      | some _ =>
+        match r.splitOn " " with
+        | yp :: mp :: dp :: hp :: _ => some s!"{yp} {mp} {dp} {hp}"
+        | _ => some r
   | "jd.week", [y, m, d, h, mi, s] => some <|
       if solarDayOk y m d && decide (0 ≤ h ∧ h ≤ 23 ∧ 0 ≤ mi ∧ mi ≤ 59 ∧ 0 ≤ s ∧ s ≤ 59) then some (toString (weekOfJdn (jdn y m d))) else none
   | "jd.weekf", [j, k] => some <| if 1721424 ≤ j ∧ j ≤ 5373484 ∧ 0 ≤ k ∧ k < 86400 then some (toString (weekOfJdn j)) else none
@@ -110,6 +122,14 @@ def specOp (op : String) (a : List Int) : Option (Option String) :=
   match op, a with
   | "scd", [y, m, d] => some (specDay y m d)
   | "sch", [y, m, d, h, mi, s] => some (specTime y m d h mi s)
+  | "scd.dep", [y, m, d] => some <| (specDay y m d).map fun r =>
+      match r.splitOn " " with
+      | yp :: mp :: dp :: _ => s!"{yp} {mp} {dp}"
+      | _ => r
+  | "sch.dep", [y, m, d, h, mi, s] => some <| (specTime y m d h mi s).map fun r =>
+      match r.splitOn " " with
+      | yp :: mp :: dp :: hp :: _ => s!"{yp} {mp} {dp} {hp}"
+      | _ => r
   | "sch.daynext", [y, m, d, h, mi, s, n] => some <|
       if !(Civil.valid y m d && decide (0 ≤ h ∧ h ≤ 23 ∧ 0 ≤ mi ∧ mi ≤ 59 ∧ 0 ≤ s ∧ s ≤ 59)) then none else
       match specTime y m d h mi s with
